@@ -134,7 +134,7 @@ def main(run):
                   "dangling dependency": "optionally one dependency on an unknown id", "dependency list order": "ascending or descending"}
     run.assumptions = ["petgraph::Graph storage behaves as documented (adjacency: newest edge first); FixedBitSet visit map = a set",
                        "DependencyNode impl = BuildpackDependencyGraphNode's (executed from MIR)"]
-    run.outside = ["reading buildpack.toml/package.toml into nodes (C08/C14/C15)", "graphs larger than the bound"]
+    run.outside = ["reading buildpack.toml into nodes and choosing which directories are buildpacks (directory walk, buildpack kind)", "graphs larger than the bound"]
     P = run.program(CRATES, src_crates=["libcnb-package"])
     install(P)
     one = lambda pat: [k for k, f in P.funcs.items() if re.search(pat, f.name)]
@@ -293,6 +293,103 @@ def main(run):
         else:
             run.stats["validated"] += 1
             run.candidate(sig, f"deps={req['deps']} roots={req['roots']} -> {real.get('order', real.get('err'))} ({viol})", req, bool(viol))
+    extraction_step(run)
+
+
+# ---------------------------------------------------------------------------------------------------------------------
+# round 3: the step before the graph — which dependencies of a package.toml become edges
+# (buildpack_dependency_graph::get_buildpack_dependencies, executed from MIR over a PackageDescriptor with symbolic ids)
+def extraction_step(run):
+    from mirsym import smt as z3
+    from mirsym import summ_core, summ_coll, summ_fs, summ_uri
+    from mirsym.summ_core import VecV, S
+    from spec import grammars
+    from harness import C09, C14
+    P = run.program(C14.CRATES)
+    summ_core.install(P)
+    summ_coll.install(P)
+    summ_fs.install(P)
+    summ_uri.install(P)
+    C09.install_regex(P, [])
+    fn = [k for k, f in P.funcs.items() if f is not None and re.search(r"(^|::)get_buildpack_dependencies$", f.name)]
+    if len(fn) != 1:
+        raise Inconclusive("buildpack_dependency_graph::get_buildpack_dependencies not found in MIR")
+    run.encoded(P, fn + [k for k, f in P.funcs.items() if f is not None and f.name.endswith("buildpack_id_from_libcnb_dependency")])
+    maxd = 3 if run.tier == "quick" else 4
+    KINDS = ["libcnb", "rel", "docker"]
+    run.bounds["edge extraction"] = (f"package.toml with 0..{maxd} dependencies, each libcnb:<symbolic valid id> | a relative path | a docker:// URI, in every order; "
+                                     "expected: exactly the libcnb ids, in order")
+    idre = grammars.buildpack_id()
+
+    def entry(ctx):
+        ctx.uri_safe = set()
+        n = ctx.choose([True] * (maxd + 1), "ndeps")
+        kinds = [KINDS[ctx.choose([True] * len(KINDS), f"kind{i}")] for i in range(n)]
+        deps, exp, texts = [], [], []
+        for i, k in enumerate(kinds):
+            if k == "libcnb":
+                d = z3.String(f"dep_id{i}")
+                ctx.uri_safe.add(f"dep_id{i}")
+                ctx.assume(z3.And(z3.InRe(d, C14.SAFE_SLASH), z3.InRe(d, idre), z3.Length(d) > 0))
+                text = summ_core.concat(["libcnb:", d])
+                exp.append(d)
+            elif k == "rel":
+                text = "../other-buildpack"
+            else:
+                text = "docker://docker.io/heroku/procfile-cnb:2.0.0"
+            u = summ_uri.parse(ctx, text)
+            if u is None:
+                raise PathInfeasible()
+            texts.append(text)
+            deps.append(P.mk_struct("PackageDescriptorDependency", uri=u))
+        desc = P.mk_struct("PackageDescriptor", buildpack=P.mk_struct("PackageDescriptorBuildpackReference", uri=summ_uri.parse(ctx, ".")), dependencies=VecV(deps),
+                           platform=P.mk_struct("Platform", os=Adt("PlatformOs", "Linux", [])))
+        ctx.x = dict(kinds=kinds, exp=exp, texts=texts)
+        return deref(P.call(ctx, fn[0], [Ref(Box(desc))], tyenv={}))
+
+    res = run.explore(P, entry, lambda ctx: [], max_paths=200000, max_depth=60)
+    run.log(f"edge extraction: {len(res)} paths")
+    pending, nlib, npaths = [], 0, 0
+    for ctx, (kind, out) in res:
+        if kind != "return":
+            run.inconclusive.append(f"edge extraction path ends with {kind}: {str(out)[:200]}")
+            continue
+        npaths += 1
+        x = ctx.x
+        want = list(x["exp"])
+        if out.variant != "Ok":
+            cl = z3.BoolVal(False)
+        else:
+            got = [deref(v) for v in deref(out.fields[0]).items]
+            nlib += 1 if got else 0
+            cl = z3.And([z3.BoolVal(len(got) == len(x["exp"]))] + [S(deref(g).fields[0]) == e for g, e in zip(got, x["exp"])]) if len(got) == len(x["exp"]) else z3.BoolVal(False)
+        run.obligation()
+        ans, m = run.check(ctx.pc + [z3.Not(cl)], "edges-are-exactly-the-libcnb-dependencies", want=want, timeout_ms=30000)
+        if ans == "sat":
+            pending.append((ctx, m, out, "edges:libcnb-dependency-dropped-or-altered"))
+        else:       # few paths per worker: every path's witness is replayed
+            ans, m = run.check(ctx.pc, "witness", want=want, timeout_ms=30000)
+            if ans == "sat":
+                pending.append((ctx, m, out, None))
+    run.extra["edge_extraction"] = {"paths": npaths, "paths_with_edges": nlib}
+    reqs = []
+    for ctx, m, out, sig in pending:
+        ev = lambda t: summ_core.eval_str(ctx, m, t)
+        reqs.append({"op": "node-deps", "uris": [ev(t) for t in ctx.x["texts"]], "expect": [ev(e) for e in ctx.x["exp"]]})
+    reals = run.replay.run(reqs)
+    for (ctx, m, out, sig), req, real in zip(pending, reqs, reals):
+        if "panic" in real or "error" in real:
+            run.mismatch(f"replay driver failed: {real} on {req}")
+            continue
+        bad = real.get("deps") != req["expect"]
+        run.stats["validated"] += 1
+        if sig is None:
+            if bad:
+                run.mismatch(f"edge extraction: real {real} differs from the expectation where the model saw none: {req}")
+            else:
+                run.sample({"package.toml dependencies": req["uris"], "edges": real.get("deps")}, limit=6)
+        else:
+            run.candidate(sig, f"package.toml dependencies {req['uris']} -> graph edges {real.get('deps', real)} (expected {req['expect']})", req, bad)
 
 
 def spec_violation(req, real):
@@ -331,5 +428,8 @@ def finalize(run):
 
 def replay(run, scen):
     real = run.replay.run([scen["scenario"]])[0]
+    if scen["scenario"].get("op") == "node-deps":
+        print(json.dumps({"real": real, "violation": real.get("deps") != scen["scenario"]["expect"]}))
+        return 0
     print(json.dumps({"real": real, "violation": spec_violation(scen["scenario"], real)}))
     return 0
